@@ -892,8 +892,10 @@ Proof.
   - rewrite <- Hl. destruct (pick (c_live c) idx) as [g|] eqn:Ep; cbn [fst snd c_s c_live c_next c_marks s_a];
       rewrite Ho, ?Hl, Hn, Hm; auto.
   - cbn [fst snd c_s c_live c_next c_marks]. rewrite Ho, Hl, Hn, Hm. auto.
-  - rewrite <- Hm. destruct (c_marks c) as [|mk rest]; cbn [fst snd]; [rewrite Ho, Hl, Hn; auto|].
-    cbn [c_s c_live c_next c_marks]. rewrite !decommit_off. unfold do_reset; cbn [c_s c_live c_next c_marks].
+  - rewrite <- Hm. destruct (c_marks c) as [|mk rest] eqn:Em; cbn [fst snd]; [rewrite Ho, Hl, Hn, Em, <- Hm; auto|].
+    cbn [c_s c_live c_next c_marks].
+    rewrite !decommit_off.
+    unfold do_reset; cbn [c_s c_live c_next c_marks].
     rewrite !reset_arena. cbn [a_off]. rewrite ?Hl, ?Hn. auto.
 Qed.
 
